@@ -394,6 +394,18 @@ def jobs_c03(prop, tier, seed):
     return _jobs(prop, tier, seed, ["base", "dbg"], [sc_fit, sc_raw], 150 if tier == "quick" else 400)
 
 
+def jobs_c09(prop, tier, seed):
+    """the smart-pointer helpers with a constructor that throws at every position: each block still goes back to the
+    allocator exactly once, as it was taken (C09)"""
+    return _jobs(prop, tier, seed, ["base"], [sc_single, sc_array], 150 if tier == "quick" else 400)
+
+
+def jobs_c17(prop, tier, seed):
+    """joint allocations in the configurations with fences: the fill of new memory stays inside the joint block (C17:
+    "without touching neighbouring live memory")"""
+    return _jobs(prop, tier, seed, ["dbg", "f16"], [sc_fit, sc_raw], 150 if tier == "quick" else 400)
+
+
 def jobs_c11(prop, tier, seed):
     J = _jobs(prop, tier, seed, ["rel", "base", "dbg"], [sc_fit, sc_raw, sc_orders, sc_joint_create],
               150 if tier == "quick" else 400)
